@@ -10,13 +10,14 @@ LEVEL = 'other'
 EXPLANATION = (
     'CrossHair (symbolic execution, z3) runs the real gear.database retry_transient_mysql_errors, '
     'exception_log_level_if_retryable, transaction, Database.start, TransactionAsyncContextManager and Transaction '
-    '(async_init, _aexit/_aexit_1, just_execute, execute_update, execute_insertone, execute_many) plus '
-    'Database.execute_update / execute_many, on the real asyncio scheduling core, against a fake pool/connection with '
+    '(async_init, _aexit/_aexit_1, just_execute, execute_update, execute_insertone, execute_and_fetchone, execute_many) '
+    'plus Database.just_execute / execute_update / execute_insertone / execute_and_fetchone / select_and_fetchone / '
+    'check_call_procedure / execute_many, on the real asyncio scheduling core, against a fake pool/connection with '
     'a two-level store (committed, pending per connection) and a fault plan: attempt a fails at operation op_a '
     '(0 connect, 1 START TRANSACTION, then each statement, last COMMIT; one more value = never) with '
     'pymysql.err.<class>(code): class in {Operational, Internal, Integrity, Programming} or a ValueError, code a '
-    'symbolic integer in -1..100000. Symbolic: op_a, class_a, code_a for every planned fault (quick: 2 faults, '
-    '1..3 statements; thorough: 3 faults). Oracle (written from the property text, not from the module\'s tuples): the '
+    'symbolic integer in -1..100000. Symbolic: op_a, class_a, code_a for every planned fault (quick: up to 2 faults, '
+    '1..3 statements; thorough: 2 faults everywhere and 3 faults for the one-statement transaction). Oracle (written from the property text, not from the module\'s tuples): the '
     'attempt is retried iff (Operational and code in {1040,1213,2003,2013}) or (Internal and code = 1205), otherwise '
     'that very exception object is raised at once; the committed store is unchanged whenever an attempt begins and '
     'after a raised error, and equals initial + the writes exactly once after success; one back-off call per retry '
@@ -30,22 +31,28 @@ CLASSES = ('TransactionAsyncContextManager', 'Transaction', 'Database')
 CLS = 'transaction-retry-or-atomicity-violated'
 
 
+SINGLE = ('execute_update', 'just_execute', 'execute_and_fetchone', 'select_and_fetchone', 'execute_insertone',
+          'check_call_procedure')
+
+
 def plan(tier):
     """(entry, nstmt, read_only, nfaults, number of leading faults whose op is fixed per shard)"""
     if tier == 'quick':
-        return [('transaction', 2, False, 2, 1), ('transaction', 3, False, 1, 0), ('transaction', 1, True, 2, 1),
-                ('execute_update', 1, False, 2, 1), ('execute_many', 2, False, 1, 0)]
-    return [('transaction', 2, False, 3, 2), ('transaction', 3, False, 2, 1), ('transaction', 2, True, 2, 1),
-            ('execute_update', 1, False, 3, 2), ('execute_many', 3, False, 2, 1)]
+        return ([('transaction', 2, False, 2, 1), ('transaction', 3, False, 1, 0), ('transaction', 1, True, 2, 1),
+                 ('execute_update', 1, False, 2, 1), ('execute_many', 2, False, 1, 0)]
+                + [(e, 1, False, 1, 0) for e in SINGLE[1:]])
+    return ([('transaction', n, ro, 2, 1) for n in (1, 2, 3) for ro in (False, True)]
+            + [('transaction', 1, False, 3, 2), ('execute_many', 3, False, 2, 1)]
+            + [(e, 1, False, 2, 1) for e in SINGLE])
 
 
 def run(R):
     from harness import C27_db as H
     from harness import C27_template as T
     quick = R.tier == 'quick'
-    pct = 160 if quick else 1300
+    pct = 400 if quick else 1300
     R.bounds = {'entry points': 'function under @transaction(db[, read_only]) with 1..3 statements (just_execute, '
-                                'execute_update, execute_insertone); Database.execute_update; Database.execute_many',
+                                'execute_update, execute_insertone); Database.execute_many; Database.' + '/'.join(SINGLE),
                 'faults': '<= 2 planned faults (quick) / <= 3 (thorough), one per attempt, at any operation or never',
                 'error classes': 'OperationalError, InternalError, IntegrityError, ProgrammingError, ValueError',
                 'error code': '-1..100000 (symbolic)', 'configurations': [list(p) for p in plan(R.tier)]}
